@@ -398,16 +398,36 @@ theorem C18_py_invalid_cpus_partial (c : Cfg) (hg : c.Good) (hrep : c.einvalValu
   rw [expectPy_affinity_set k pid st f cpus (Or.inr h.1), expectP_of_permitted hperm]
   exact expect_of_onlyUnusableAny pid h
 
-/-- the full statement is false of the code as it is (known finding `C18-huge-cpu-overflowerror`):
+/-- the source as found (fact `affinityOverflowRaisesValueError = false`): `cpu_affinity_set` catches
+    `(OSError, ValueError)` only -/
+def cfgOverflowUncaught : Cfg := { cfg with overflowValueError := false }
+
+/-- the full statement is false of the source as found (known finding `C18-huge-cpu-overflowerror`):
     `cpu_affinity([2**63])` names only a nonexistent CPU and raises OverflowError, not ValueError -/
-theorem C18_invalid_cpus_counterexample : ¬ C18_invalid_cpus_Full cfg := by
+theorem C18_invalid_cpus_counterexample : ¬ C18_invalid_cpus_Full cfgOverflowUncaught := by
   intro h
   have := h kWitness 7 stWitness CpuForm.list [9223372036854775808] ⟨0, none⟩ (by decide) rfl wf_witness rfl
     ⟨by decide, by decide⟩
-  have h2 : (stepPy cfg kWitness 7 ⟨0, none⟩ (.cpuAffinity (some (.list, [9223372036854775808])))).1 =
+  have h2 : (stepPy cfgOverflowUncaught kWitness 7 ⟨0, none⟩ (.cpuAffinity (some (.list, [9223372036854775808])))).1 =
       .exc .overflowError := by decide
   rw [this] at h2
   cases h2
+
+/- AFTER `fixes/C18-affinity-overflow-valueerror.diff` HAS LANDED (integrator): uncomment — the obligation
+   on the translator's fact and the full statement / the refinement without any excluded region for
+   the code as it is; then `./check C18 --rebaseline`, move the finding to a `fixed:` line.
+
+theorem cfg_overflow_is_valueError : cfg.overflowValueError = true := by decide
+
+theorem C18_invalid_cpus : C18_invalid_cpus_Full cfg :=
+  C18_invalid_cpus_repaired cfg cfg_good cfg_einval_is_valueError cfg_overflow_is_valueError
+
+theorem C18_refines_code_py_full (k : Kernel) (pid : Nat) (st : PState) (x : Ctx) (r : PyReq) (o : Out) (k' : Kernel)
+    (hpid : pid ≠ 0) (hst : k.procs pid = some st) (hwf : WF k st)
+    (hs : Spec.expectPy k pid st r = .promised o k') : stepPy cfg k pid x r = (o, k') :=
+  C18_refines_py cfg cfg_good cfg_einval_is_valueError k pid st x r o k' hpid hst hwf
+    (Or.inl cfg_overflow_is_valueError) hs
+-/
 
 /-- … whatever happens there, nothing changes and the exception is one of the two -/
 theorem C18_huge_cpu_raises (c : Cfg) (k : Kernel) (pid : Nat) (st : PState) (x : Ctx) (f : CpuForm)
